@@ -4,6 +4,7 @@ import (
 	"context"
 	"crypto/rand"
 	"net/http"
+	"strings"
 
 	"github.com/ipfs/go-cid"
 	cidlink "github.com/ipld/go-ipld-prime/linking/cid"
@@ -145,4 +146,21 @@ func VerifC03_PublisherHeadVerifies() {
 		peerInfo: peer.AddrInfo{ID: other.id}}
 	got2, gerr2 := s2.GetHead(context.Background())
 	verif_Assert(gerr2 != nil && got2 == cid.Undef, "a client expecting a different publisher rejects it")
+}
+
+// C03: the head a publisher serves verifies
+// whatever its encoded size — topics (like large public keys) that make the
+// message longer than one or four kilobytes included.
+func VerifC03_LongHeadVerifies() {
+	k := c03newKey()
+	topic := "/" + strings.Repeat("long-topic/", []int{0, 10, 120, 500}[verif_Choose("topicRepeats", 0, 3)])
+	root := c03cid(0xa1)
+	wire, err := newEncodedSignedHead(root, topic, k.priv)
+	verif_Assert(err == nil, "the publisher can encode its signed head")
+	rt := &vRT{fn: func(req *http.Request) (*http.Response, error) { return vResp(200, wire), nil }}
+	s := &Syncer{client: &http.Client{Transport: rt}, rootURL: vURL("http://pub.example/ipni/v1/ad"), sync: &Sync{},
+		peerInfo: peer.AddrInfo{ID: k.id}}
+	got, gerr := s.GetHead(context.Background())
+	verif_Reach("answered")
+	verif_Assert(gerr == nil && got == root, "the head a publisher serves for its root is accepted whatever its encoded size")
 }
